@@ -254,9 +254,9 @@ int main(int argc, char **argv)
         return wr_finish();
     }
     leg_arg_t a1 = { 0, -1 }, a2 = { 1, wr_thorough ? 2 : 1 };
-    if (!only || !strcmp(only, "threads")) wr_run_legs("threads", 9, leg_threads, NULL, 90, aux);
+    if (!only || !strcmp(only, "threads")) wr_run_legs("threads", 9, leg_threads, NULL, 240, aux);
     g_parsec = init_ctx(1, NULL);      /* once, in the parent: the forked hsched workers inherit the one-stream context */
-    if (!only || !strcmp(only, "bounded")) wr_run_legs("bounded", jobs > 6 ? 6 : jobs, leg_orders, &a2, 60, aux);
-    if (!only || !strcmp(only, "orders")) wr_run_legs("orders", jobs, leg_orders, &a1, 60, aux);
+    if (!only || !strcmp(only, "bounded")) wr_run_legs("bounded", jobs > 6 ? 6 : jobs, leg_orders, &a2, 600, aux);
+    if (!only || !strcmp(only, "orders")) wr_run_legs("orders", jobs, leg_orders, &a1, 600, aux);
     return wr_finish();
 }
